@@ -3,4 +3,5 @@
 #[cfg(stageleft_runtime)]
 hydro_lang::setup!();
 
+pub mod atomics;
 pub mod slices;
